@@ -995,6 +995,16 @@ func (ctx *EvalCtx) runSpecCall(fn *ssa.Function, recv *CV, argExprs []ast.Expr)
 		for i := 0; i < rs.Len(); i++ {
 			res = append(res, CV{ctx.ex.f.App(fmt.Sprintf("fn.%s.r%d", sanitize(ct.Key()), i), ctx.ex.tm.SortOf(rs.At(i).Type()), fargs...), rs.At(i).Type()})
 		}
+	} else if name := fn.String(); len(fn.Blocks) == 0 && isPureExternal(name) && ctx.ex.allValueLike(fn) && len(args) == len(sigParamTypes(fn.Signature)) {
+		// an effect-free dependency function of plain values: the same uninterpreted symbol the call rule uses
+		fargs := make([]*Term, len(args))
+		for i, a := range args {
+			fargs[i] = a.t
+		}
+		rs := fn.Signature.Results()
+		for i := 0; i < rs.Len(); i++ {
+			res = append(res, CV{ctx.ex.f.App(fmt.Sprintf("ext.%s.r%d", sanitize(name), i), ctx.ex.tm.SortOf(rs.At(i).Type()), fargs...), rs.At(i).Type()})
+		}
 	} else {
 		res = ctx.specCall(fn, args)
 	}
